@@ -44,7 +44,7 @@ eb_release_fully_slashed eb_release_native eb_requeue_held eb_release_after_requ
 slash_hits_pending_record slash_record_to_zero slash_spares_older_record slash_multi_asset slash_pool_fully_unbonding_other_bonded
 slash_infraction_at_current_height slash_replay slash_factor_above_one slash_zero_value_operator nst_up
 nst_down_within_withdrawable nst_down_ends_inside_pending_records nst_down_reaches_shares nst_down_shares_two_operators
-nst_down_zero_share_row_error""".split()
+nst_down_skips_zero_share_row""".split()
 
 TAG_UNIVERSE = {
     "C01": ["C01_Conservation", "C01_Published", "C01_Escrow", "C01_NonNegative", "C01_OnlyDepositsCreate"],
